@@ -17,7 +17,7 @@ from fractions import Fraction as F
 
 from ..lib import coqlit as L
 
-IMPORTS = ("From LV Require Import Common.Cases Msa.Profile Msa.Merge Msa.Refine Msa.MsaExec Msa.Alignments.\n"
+IMPORTS = ("From LV Require Import Common.Cases Msa.Profile Msa.Merge Msa.Refine Msa.MsaExec Msa.Alignments Msa.AlignHistory.\n"
            "Open Scope nat_scope.")
 
 # token inventory: plain IPA segments all three sound-class models know; several map to the
@@ -703,6 +703,189 @@ def classify_alm(case, res):
             "alm:iteration=%s" % case["kw"]["iteration"], "alm:words=%d" % len(res["wl"])]
 
 
+# ----------------------------------------------------------------------------------------------
+# Alignments: histories of add_alignments / align over several cognate-id columns
+REFS = ["cogid", "autoid", "strictid"]
+ALMH_BITS = {0: "correspondence: the alignment column after an add_alignments / align call differs from the model's "
+                "(sets of the ref of THAT call written by word id, every other word reset to its segments), or one "
+                "of the two raised and the other did not",
+             1: "the generated initial alignment column does not de-gap to the segments (generator error)",
+             2: "C04 (Alignments clause) after a call: a stored alignment does not de-gap to the word's segments, or "
+                "after align(ref): members of a multi-member set of that ref do not share one length / a word outside "
+                "any multi-member set of that ref differs from its segments / a set's alm_matrix violates the Multiple "
+                "invariant"}
+
+
+def repartition(rng, cogs):
+    """A second cognate coding derived from the first: coarser, finer, or unrelated."""
+    kind = rng.choice(["merge", "split", "random", "split", "merge"])
+    ids = sorted({c for c in cogs if c})
+    out = list(cogs)
+    if kind == "merge" and len(ids) >= 2:
+        a, b = rng.sample(ids, 2)
+        out = [a if c == b else c for c in cogs]
+        if rng.random() < 0.5:                      # ... and pull in an unassigned word
+            z = [i for i, c in enumerate(out) if c == 0]
+            if z:
+                out[rng.choice(z)] = a
+    elif kind == "split" and ids:
+        a = rng.choice(ids)
+        new = max(ids) + 1
+        members = [i for i, c in enumerate(cogs) if c == a]
+        for i in members:
+            if rng.random() < 0.5:
+                out[i] = new
+        if len(members) > 1 and all(out[i] == a for i in members):
+            out[members[-1]] = new                  # at least one word leaves the set
+    else:
+        hi = max(ids + [1]) + 1
+        out = [rng.choice([0] + list(range(1, hi + 1))) for _ in cogs]
+    return out
+
+
+def stale_gaps(rng, toks):
+    """The tokens with gaps left over from an older alignment (possibly trailing, possibly none)."""
+    row = list(toks)
+    for _ in range(rng.choice([0, 1, 1, 2, 3])):
+        row.insert(rng.choice([len(row), len(row), rng.randrange(len(row) + 1)]), "-")
+    return row
+
+
+def gen_almh_case(rng, max_words=9, max_len=5):
+    base = gen_alm_case(rng, max_words, max_len)
+    nref = rng.choice([2, 2, 3])
+    cols = [[w["cog"] for w in base["words"]]]
+    for _ in range(nref - 1):
+        cols.append(repartition(rng, rng.choice(cols)))
+    words = []
+    for k, w in enumerate(base["words"]):
+        w = dict(w)
+        w.pop("cog")
+        w["cogs"] = [c[k] for c in cols]
+        words.append(w)
+    case = {"words": words, "nref": nref, "default": rng.randrange(nref), "alignment": None, "calls": []}
+    if rng.random() < 0.35:
+        case["alignment"] = [stale_gaps(rng, w["tokens"]) for w in words]
+
+    def kw():
+        return {"method": rng.choice(METHODS), "tree_calc": rng.choice(["upgma", "neighbor"]),
+                "mode": rng.choice(MODES), "gop": rng.choice(GOPS), "scale": rng.choice(SCALES),
+                "factor": rng.choice(FACTORS), "gap_weight": rng.choice(GAPWS), "iteration": rng.random() < 0.2,
+                "swap_check": rng.random() < 0.15, "model": rng.choice(MODELS)}
+
+    registered = {case["default"]}
+    for _ in range(rng.randint(2, 5)):
+        c = rng.random()
+        r = rng.randrange(nref)
+        if c < 0.08:                                     # align on a ref that may not be registered: KeyError
+            case["calls"].append({"kind": "align", "ref": r, "kw": kw()})
+        elif r not in registered or c < 0.3:
+            case["calls"].append({"kind": "add", "ref": r, "override": rng.random() < 0.3})
+            registered.add(r)
+            if rng.random() < 0.8:
+                case["calls"].append({"kind": "align", "ref": r, "kw": kw()})
+        else:
+            case["calls"].append({"kind": "align", "ref": r, "kw": kw()})
+    return case
+
+
+def run_almh_impl(case):
+    from lingpy.align.sca import Alignments
+    refs = REFS[:case["nref"]]
+    head = ["doculect", "concept", "tokens", "ipa"] + refs + (["alignment"] if case["alignment"] else [])
+    D = {0: head}
+    for k, w in enumerate(case["words"]):
+        row = [w["doc"], w["concept"], list(w["tokens"]), "".join(w["tokens"])] + list(w["cogs"])
+        if case["alignment"]:
+            row.append(list(case["alignment"][k]))
+        D[w["id"]] = row
+    toks = sorted({t for w in case["words"] for t in w["tokens"]})
+    tcode = {t: i + 1 for i, t in enumerate(toks)}
+
+    def row(r):
+        return [None if t == "-" else tcode.get(t, 0) for t in r]
+
+    alm = Alignments(D, ref=refs[case["default"]])
+
+    def column():
+        return [[int(k), row(list(alm[k, "alignment"]))] for k in alm]
+
+    res = {"words": [[int(k), alm.cols.index(alm[k, "doculect"]), [int(alm[k, r]) for r in refs],
+                      [tcode[t] for t in alm[k, "tokens"]]] for k in alm],
+           "col0": column(), "steps": []}
+    # the constructor has registered the default ref
+    res["steps"].append({"kind": "add", "ref": case["default"], "override": False, "sets": [], "raised": None,
+                         "col": column()})
+    for c in case["calls"]:
+        name = refs[c["ref"]]
+        raised = None
+        try:
+            if c["kind"] == "add":
+                alm.add_alignments(ref=name, override=c["override"])
+            else:
+                alm.align(ref=name, **c["kw"])
+        except Exception as e:  # align on an unregistered ref: KeyError (a guard)
+            raised = "%s: %s" % (type(e).__name__, e)
+        sets = []
+        if c["kind"] == "align" and raised is None:
+            for key, v in alm.msa[name].items():
+                sets.append([[[tcode[t] for t in s] for s in v["seqs"]], [row(r) for r in v["alignment"]]])
+        res["steps"].append({"kind": c["kind"], "ref": c["ref"], "override": c.get("override", False),
+                             "sets": sets, "raised": raised, "col": column()})
+    return res
+
+
+def col_lit(col):
+    return L.lst(["(%d, %s)" % (i, erow_lit(r)) for i, r in col])
+
+
+def render_almh(case, res):
+    words = L.lst(["(Build_mword %d %d %s %s)" % (i, d, L.lst(["%d" % c for c in cs]), L.zlist(t))
+                   for i, d, cs, t in res["words"]])
+    steps = []
+    for s in res["steps"]:
+        kind = "(KAdd %d %s)" % (s["ref"], L.b(s["override"])) if s["kind"] == "add" else "(KAlign %d)" % s["ref"]
+        sets = L.lst(["(%s, %s)" % (L.zmat(q), L.lst([erow_lit(r) for r in a])) for q, a in s["sets"]])
+        steps.append(L.record("astep", [kind, sets, L.b(s["raised"] is not None), col_lit(s["col"])]))
+    return L.record("almh_case", [words, col_lit(res["col0"]), L.lst(steps)])
+
+
+def nontrivial_almh(case, res):
+    """At least two align calls on different refs whose columns differ."""
+    cols = {}
+    for s in res["steps"]:
+        if s["kind"] == "align" and s["raised"] is None:
+            cols[s["ref"]] = json_key(s["col"])
+    return len(set(cols.values())) >= 2
+
+
+def json_key(x):
+    import json
+    return json.dumps(x, sort_keys=True)
+
+
+def shrink_almh(case):
+    if len(case["calls"]) > 1:
+        for k in range(len(case["calls"])):
+            c = copy.deepcopy(case)
+            del c["calls"][k]
+            yield c
+    if len(case["words"]) > 2:
+        for k in range(len(case["words"])):
+            c = copy.deepcopy(case)
+            del c["words"][k]
+            if c["alignment"]:
+                del c["alignment"][k]
+            yield c
+
+
+def classify_almh(case, res):
+    out = ["almh:nref=%d" % case["nref"], "almh:stale_alignment_column" if case["alignment"] else "almh:no_alignment_column"]
+    for s in res["steps"][1:]:
+        out.append("almh:%s:%s" % (s["kind"], "raised" if s["raised"] else "ok"))
+    return out
+
+
 def _view(**over):
     import types
     ns = types.SimpleNamespace(**{k: v for k, v in globals().items() if not k.startswith("__")})
@@ -712,5 +895,7 @@ def _view(**over):
 
 
 C11View = _view(nontrivial=nontrivial_c11)
+AlmHView = _view(run_impl=run_almh_impl, render=render_almh, BITS=ALMH_BITS, nontrivial=nontrivial_almh,
+                 shrink=shrink_almh, classify=classify_almh)
 AlmView = _view(run_impl=run_alm_impl, render=render_alm, BITS=ALM_BITS, nontrivial=nontrivial_alm,
                 shrink=shrink_alm, classify=classify_alm)
